@@ -56,16 +56,17 @@ type ctl struct {
 }
 
 type world struct {
-	unordered bool // the pending expectations stem from concurrent changes
-	tb        *fixture.TestBed
-	acc       *fixture.Acc
-	dir       string
-	ltpk      []byte
-	chars     []*chr
-	ctls      []*ctl
-	hist      []string
-	flags     map[string]bool
-	n         int
+	getterCalls int  // read callback of thermo.target
+	unordered   bool // the pending expectations stem from concurrent changes
+	tb          *fixture.TestBed
+	acc         *fixture.Acc
+	dir         string
+	ltpk        []byte
+	chars       []*chr
+	ctls        []*ctl
+	hist        []string
+	flags       map[string]bool
+	n           int
 }
 
 func canon(v interface{}) string {
@@ -119,6 +120,10 @@ func newWorld(nctl int) (*world, error) {
 		"Proxy (HTTP/1.0 only)", "HTTP/1.0 200 OK", "EVENT/1.0 200 OK\r\nContent-Length: 0\r\n\r\n", "HTTP/1.1", "Content-Length: 5", "}]}")
 	add("bulb.blob(no-ev)", bulb.ID, w.tb.Blob.Characteristic, "AQID", "BAUG", "")
 	add("thermo.target", th.ID, th.Thermostat.TargetTemperature.Characteristic, 10.0, 20.5, 35.0, 21.0, 35.0, 50.0, 0.0)
+	// the application also answers reads of this one itself (a device that is asked for its state), and what the
+	// device says differs from what was just set. Nobody reads the characteristic in these histories, so the
+	// callback has no business running: a notification carries the value that was set.
+	th.Thermostat.TargetTemperature.OnValueRemoteGet(func() float64 { w.getterCalls++; return 17.0 })
 	add("thermo.current(read-only)", th.ID, th.Thermostat.CurrentTemperature.Characteristic, 11.0, 22.5, 30.0)
 	add("thermo.name(no-ev,read-only)", th.ID, th.Info.Name.Characteristic, "n1", "n2")
 	for i, sw := range w.tb.Switches {
